@@ -108,6 +108,7 @@ func (ex *Exec) havocPlace(p PtrV, prefix string) {
 	}
 	for i, l := range leaves {
 		ex.havocLeaf(p.Obj, p.Off+i, l.Typ, prefix+l.Path)
+		ex.noteWrite(p.Obj, p.Off+i, 1)
 	}
 }
 
@@ -302,6 +303,7 @@ func (ex *Exec) applyContract(fc *FuncContract, fr *FuncRef, args []Value, at as
 			if p.Obj != nil {
 				for i := 0; i < p.Len; i++ {
 					ex.havocLeaf(p.Obj, p.Off+i, p.Elem, fr.Key+".b")
+					ex.noteWrite(p.Obj, p.Off+i, 1)
 				}
 			}
 		case *Term:
